@@ -3092,8 +3092,18 @@ func isValidKey(key string) bool {
 	return key != "" && len(key) <= maxKeyLength
 }
 
-// isValidSwampName reports whether the name has exactly three non-empty parts (sanctuary/realm/swamp).
+// maxSwampNameLength is what the V3 file header can hold: the swamp name is stored after the
+// header under a 16-bit length, and the file writer refuses anything longer.
+const maxSwampNameLength = 65535
+
+// isValidSwampName reports whether the name has exactly three non-empty parts (sanctuary/realm/swamp)
+// and is short enough to be stored. Without the length bound a longer name was accepted here while
+// every later write to its file failed in the writer's constructor and was only logged: Set answered
+// NEW and the data was gone after a restart.
 func isValidSwampName(swampName string) bool {
+	if len(swampName) > maxSwampNameLength {
+		return false
+	}
 	parts := strings.Split(swampName, "/")
 	return len(parts) == 3 && parts[0] != "" && parts[1] != "" && parts[2] != ""
 }
